@@ -16,7 +16,8 @@ EXTENDS PipelineOps, NetSimplexOps, Json, IOUtils
 
 Trace == ndJsonDeserialize(IOEnv.VERIF_TRACE)
 
-CONSTANTS NSMaxNodes, NSMaxEdges      \* size bound for the layer-3 prediction (cost of evaluating the model in TLC)
+CONSTANTS NSMaxNodes, NSMaxEdges,     \* size bounds for the layer-3 predictions (cost of evaluating the models in TLC)
+          CBMaxNodes, CBMaxEdges, POMaxNodes
 VARIABLES l, call, prev, cnt
 pvars == <<l, call, prev, cnt>>
 NoCall == [ev |-> "None"]
@@ -28,12 +29,12 @@ IsEvent(e) == l <= Len(Trace) /\ Trace[l].ev = e /\ l' = l + 1
 Rec == Trace[l]
 Final == IF l' = Len(Trace) + 1 THEN PrintT("STATS " \o ToJson(cnt')) ELSE TRUE
 
-Snap(r) == [st |-> r.st, comp |-> r.comp, nodes |-> r.nodes, edges |-> r.edges, layers |-> r.layers, lh |-> r.lh, exact |-> r.exact]
+Snap(r) == [st |-> r.st, comp |-> r.comp, nodes |-> r.nodes, edges |-> r.edges, layers |-> r.layers, lh |-> r.lh, exact |-> r.exact,
+            inl |-> r.inl, outl |-> r.outl]
 
 \* ---- layer 3 bound to the code: the network-simplex model predicts the layer of every node exactly.
-\* Applies to components on which phase 1 reversed nothing (the model's In/Out lists are in edge-list order then).
+\* The model runs on the recorded edge list and the recorded in/out lists of every node (their order is what phase 1 left).
 NSApplies(c, a, s) == /\ c.p2 = "ns" /\ Len(a.nodes) >= 2 /\ Len(a.nodes) <= NSMaxNodes /\ Len(a.edges) <= NSMaxEdges
-                      /\ \A i \in DOMAIN a.edges : a.edges[i][3] = 0
                       /\ [i \in DOMAIN a.nodes |-> a.nodes[i][1]] = [i \in DOMAIN s.nodes |-> s.nodes[i][1]]
 IndexOf(a, ref) == CHOOSE k \in DOMAIN a.nodes : a.nodes[k][1] = ref
 ISqrtFloor(n) == CHOOSE k \in 0..n : k * k <= n /\ (k + 1) * (k + 1) > n
@@ -41,20 +42,58 @@ NSPredicted(c, a) ==
     LET k == Len(a.nodes)
         ies == [i \in DOMAIN a.edges |-> <<IndexOf(a, a.edges[i][1]), IndexOf(a, a.edges[i][2])>>]
         thor == IF c.thor < 0 THEN 28 ELSE c.thor
-    IN RunNS(ies, k, thor * ISqrtFloor(k))
+    IN RunNS([p |-> ies, inl |-> a.inl, outl |-> a.outl], k, thor * ISqrtFloor(k))
 NSDrift(c, a, s) ==
     IF ~NSApplies(c, a, s) THEN {}
     ELSE LET st == NSPredicted(c, a) IN
          IF st.phase # "done" THEN {"L3_NetSimplexModelDidNotFinish"}
          ELSE If([i \in DOMAIN s.nodes |-> s.nodes[i][3]] = [i \in DOMAIN s.nodes |-> st.rank[i]], "L3_NetSimplexLayersAsModelled")
 
+\* ---- layer 3 bound to the code: the phase-1 model predicts every edge (end points, reversed flag) exactly
+CB == INSTANCE CycleBreakOps
+CBApplies(c, a, s) == c.p1 \in {"greedy", "dfs"} /\ Len(a.nodes) <= CBMaxNodes /\ Len(a.edges) <= CBMaxEdges /\ Len(a.edges) >= 1
+                      /\ Len(s.edges) = Len(a.edges)
+CBPredicted(c, a) ==
+    LET k == Len(a.nodes)
+        prs == [i \in DOMAIN a.edges |-> <<IndexOf(a, a.edges[i][1]), IndexOf(a, a.edges[i][2])>>]
+    IN CB!BreakCycles(k, CB!MkGraph(k, prs), c.p1)
+CBDrift(c, a, s) ==
+    IF ~CBApplies(c, a, s) THEN {}
+    ELSE LET R == CBPredicted(c, a) IN
+         If(\A i \in DOMAIN s.edges : /\ IndexOf(a, s.edges[i][1]) = R.es[i].f /\ IndexOf(a, s.edges[i][2]) = R.es[i].t
+                                       /\ s.edges[i][3] = R.es[i].rev, "L3_CycleBreakAsModelled")
+         \* ... and the order of every node's in- and out-list after the in-place reversals
+         \cup If(\A n \in DOMAIN s.nodes : s.inl[n] = R.inl[n] /\ s.outl[n] = R.outl[n], "L3_EdgeListsAsModelled")
+
+\* ---- layer 3 bound to the code: the positioning models predict every coordinate exactly (x in half units)
+PO == INSTANCE PositionOps
+PosGraph(a) ==
+    [k |-> Len(a.nodes),
+     w |-> [i \in DOMAIN a.nodes |-> a.nodes[i][7]], h |-> [i \in DOMAIN a.nodes |-> a.nodes[i][8]],
+     virt |-> [i \in DOMAIN a.nodes |-> a.nodes[i][2]], layer |-> [i \in DOMAIN a.nodes |-> a.nodes[i][3]],
+     pos |-> [i \in DOMAIN a.nodes |-> a.nodes[i][4]],
+     ef |-> [i \in DOMAIN a.edges |-> IndexOf(a, a.edges[i][1])], et |-> [i \in DOMAIN a.edges |-> IndexOf(a, a.edges[i][2])],
+     inl |-> a.inl,
+     layers |-> [ly \in DOMAIN a.layers |-> [j \in DOMAIN a.layers[ly] |-> IndexOf(a, a.layers[ly][j])]]]
+POApplies(c, a, s) == /\ c.p4 \in {"valign", "pack", "sink"} /\ Len(a.nodes) >= 2 /\ Len(a.nodes) <= POMaxNodes
+                      /\ s.exact = 1 /\ Len(s.nodes) = Len(a.nodes)
+PODrift(c, a, s) ==
+    IF ~POApplies(c, a, s) THEN {}
+    ELSE LET G == PosGraph(a)
+             ns == Q * c.ns
+             sink == IF c.p4 = "sink" THEN PO!SinkColoringX2(G, ns) ELSE [x |-> <<>>, finished |-> TRUE]
+             x2 == CASE c.p4 = "valign" -> PO!VAlignX2(G, ns) [] c.p4 = "pack" -> PO!PackRightX2(G, ns) [] OTHER -> sink.x
+         IN (IF sink.finished THEN {} ELSE {"L3_PlaceBlockModelDidNotFinish"})
+            \cup If(\A i \in DOMAIN s.nodes : 2 * s.nodes[i][5] = x2[i], "L3_XAsModelled_" \o c.p4)
+            \cup If(\A i \in DOMAIN s.nodes : s.nodes[i][6] = PO!YOfLayer(G, Q * c.ls, s.nodes[i][3] + 1), "L3_YAsModelled")
+
 \* the contract of the stage being entered, between the previous snapshot and the recorded one
 Broken(c, a, s) ==
     CASE s.st = 0 -> (IF a.st \in {-1, 6} THEN {} ELSE {"StageOrder"}) \cup Contract0(c, s.comp, s)
-      [] s.st = 1 -> (IF a.st = 0 THEN Contract1(c, a, s) ELSE {"StageOrder"})
+      [] s.st = 1 -> (IF a.st = 0 THEN Contract1(c, a, s) \cup CBDrift(c, a, s) ELSE {"StageOrder"})
       [] s.st = 2 -> (IF a.st = 1 THEN Contract2(c, a, s) \cup NSDrift(c, a, s) ELSE {"StageOrder"})
       [] s.st = 3 -> (IF a.st = 2 THEN Contract3(c, a, s) ELSE {"StageOrder"})
-      [] s.st = 4 -> (IF a.st = 3 THEN Contract4(c, a, s) ELSE {"StageOrder"})
+      [] s.st = 4 -> (IF a.st = 3 THEN Contract4(c, a, s) \cup PODrift(c, a, s) ELSE {"StageOrder"})
       [] s.st = 5 -> (IF a.st = 4 THEN Contract5(c, a, s) ELSE {"StageOrder"})
       [] s.st = 6 -> (IF a.st = 5 THEN Contract6(c, s.comp, a, s) ELSE {"StageOrder"})
       [] OTHER -> {"UnknownStage"}
@@ -70,7 +109,9 @@ TraceStage ==
           /\ prev' = s
           /\ cnt' = [cnt EXCEPT !.stages = @ + 1, !.drift = @ + (IF B = {} THEN 0 ELSE 1),
                                 !.components = @ + (IF s.st = 0 THEN 1 ELSE 0),
-                                !.l3predictions = @ + (IF s.st = 2 /\ prev.st = 1 /\ NSApplies(call, prev, s) THEN 1 ELSE 0)]
+                                !.l3predictions = @ + (IF s.st = 2 /\ prev.st = 1 /\ NSApplies(call, prev, s) THEN 1 ELSE 0)
+                                                    + (IF s.st = 1 /\ prev.st = 0 /\ CBApplies(call, prev, s) THEN 1 ELSE 0)
+                                                    + (IF s.st = 4 /\ prev.st = 3 /\ POApplies(call, prev, s) THEN 1 ELSE 0)]
     /\ UNCHANGED call /\ Final
 TraceEnd == /\ (IsEvent("Return") \/ IsEvent("Panic") \/ IsEvent("Abort"))
             /\ call' = NoCall /\ prev' = NoSnap /\ UNCHANGED cnt /\ Final
